@@ -1,6 +1,7 @@
 import S3V.Thm.EvStream
 import S3V.Thm.EvStreamXml
 import S3V.Thm.EvStreamTrunc
+import S3V.Thm.Itoa
 /-!
 # C15 — SelectObjectContent events are framed as valid AWS event-stream messages (property theorems only)
 
@@ -178,6 +179,21 @@ theorem C15_stats_xml_text (d : Details) :
 
 example : readCounters tStats (payloadBytes (intoMessage (.stats (some ⟨some 1024, some (-1), none⟩))))
     = some (some ⟨none, some 1024, some (-1)⟩) := (C15_stats_progress_payload _).1
+
+/-- `fmt_long` is `itoa::Buffer::format(i64)`. The literal model of itoa 1.0.15's `write` for `i64`
+    (`S3V/Model/Itoa.lean`: two's-complement magnitude with `wrapping_add`, 4 digits per loop pass through the
+    200-byte digit table, then 2, then 1 or 2, then `-`) produces, for EVERY `i64`, exactly the decimal text the
+    C15 model uses for the counters (`fmtLong`); that text has at most 20 bytes (`i64::MAX_STR_LEN`, so the
+    backwards-filled 20-byte buffer is never overrun), and the spec's reader takes it back as the same number -/
+theorem C15_itoa_is_decimal (v : Int) (hlo : -9223372036854775808 ≤ v) (hhi : v < 9223372036854775808) :
+    Itoa.write v = fmtLong v ∧ (Itoa.write v).length ≤ 20 ∧ parseLong (Itoa.write v) = some v :=
+  ⟨Itoa.write_eq_fmtLong v hlo hhi, Itoa.write_length_le v hlo hhi,
+    by rw [Itoa.write_eq_fmtLong v hlo hhi]; exact parseLong_fmtLong v⟩
+
+/-- non-vacuity: `i64::MIN` (whose magnitude does not fit an `i64`) and `i64::MAX` are in the range -/
+example : (-9223372036854775808 : Int) ≤ -9223372036854775808 ∧ (-9223372036854775808 : Int) < 9223372036854775808 ∧
+    (-9223372036854775808 : Int) ≤ 9223372036854775807 ∧ (9223372036854775807 : Int) < 9223372036854775808 := by decide
+example : Itoa.magnitude (-9223372036854775808) = 9223372036854775808 := by decide
 
 /-- events are always framed: an event item fails to serialise only if its payload does not fit the 32-bit
     total length (101 = 16 + the largest fixed header block, that of Records) -/
